@@ -107,7 +107,14 @@ def render(case):
                 else:
                     p = base - 1 - s.get("pin", 0) % 5 if base > 6 else base + 151
                 ok = last_res is not None and base <= p <= base + 150
-                t = f"Id. at {p}."
+                # page ranges, written in full or with the customary abbreviated end ("at 215-16"): the range starts at p
+                rng = s.get("range", 0) % 4
+                ptxt = str(p)
+                if rng == 1 and p >= 1:
+                    ptxt = f"{p}-{p + 1 + s.get('pin', 0) % 3}"
+                elif rng == 2 and p >= 100 and (p % 100) < 97:
+                    ptxt = f"{p}-{(p + 1 + s.get('pin', 0) % 2) % 100:02d}"
+                t = f"Id. at {ptxt}."
                 expect.append(("id", last_res if ok else None))
                 last_res = last_res if ok else None
                 ref_kinds.add("id")
@@ -202,7 +209,7 @@ def scenario(draw, max_cases=5, max_stmts=9):
     stmt = st.fixed_dictionaries({
         "k": st.sampled_from(["full", "full", "short", "shortante", "supra", "id", "idpin", "fill", "ref"]),
         "c": st.integers(0, 4), "pin": st.integers(0, 400), "party": st.integers(0, 1), "lead": st.integers(0, 2),
-        "comma": st.booleans(), "i": st.integers(0, 3),
+        "comma": st.booleans(), "i": st.integers(0, 3), "range": st.integers(0, 3),
     })
     stmts = draw(st.lists(stmt, min_size=1, max_size=max_stmts))
     return {"cases": cases, "stmts": stmts}
@@ -215,7 +222,7 @@ def scenario_text():
 SMALL_ALPHA = [
     {"k": "full", "c": 0}, {"k": "full", "c": 1}, {"k": "short", "c": 0}, {"k": "short", "c": 1}, {"k": "shortante", "c": 0},
     {"k": "shortante", "c": 1, "party": 1}, {"k": "supra", "c": 0}, {"k": "supra", "c": 1, "party": 1}, {"k": "id"},
-    {"k": "idpin", "pin": 0}, {"k": "idpin", "pin": 3}, {"k": "ref", "c": 0}, {"k": "ref", "c": 1, "party": 1}, {"k": "fill"},
+    {"k": "idpin", "pin": 0}, {"k": "idpin", "pin": 3}, {"k": "idpin", "pin": 5, "range": 2}, {"k": "ref", "c": 0}, {"k": "ref", "c": 1, "party": 1}, {"k": "fill"},
 ]
 
 
